@@ -386,7 +386,7 @@ class ZTransformer(UnilateralForwardTransformer):
             nsym = sympify(str(n))
             zsym = sympify(str(z))
             result = sym.Sum(expr.subs(nsym, msym) *
-                             zsym**msym, (msym, 0, sym.oo))
+                             zsym**(-msym), (msym, 0, sym.oo))
 
         return const * result
 
